@@ -393,7 +393,7 @@ func TestVF_C34_Index(t *testing.T) {
 // raw records section and record count.
 func c34WitnessSegment(numRecords int32, records []byte) []byte {
 	b := &vfkit.Batch{Magic: 2, FirstTimestamp: 1726000000000, MaxTimestamp: 1726000000000, ProducerID: -1, ProducerEpoch: -1, BaseSequence: -1,
-		NumRecords: numRecords, RawRecords: records}
+		NumRecords: numRecords, LastOffsetDelta: numRecords - 1, RawRecords: records}
 	seg, _, err := c34BrokerSegment([][]byte{b.Encode()})
 	if err != nil {
 		panic(err)
